@@ -7,6 +7,7 @@ import (
 	"errors"
 	"fmt"
 	"sort"
+	"strings"
 
 	"grog/internal/config"
 	"grog/internal/label"
@@ -59,6 +60,50 @@ func symLines(n int) []string {
 	return lines
 }
 
+// refMakefile: reference reading of the annotation convention, written from the loader's documentation:
+// a "# @grog" marker line, then (ignoring blank lines) comment lines forming the annotation, then the rule
+// line "name: ..."; the target's command is "make name". Returns the commands in order, or rejected.
+func refMakefile(lines []string, yamlOK func(k int) bool) (cmds []string, rejected bool) {
+	i := 0
+	block := 0
+	for i < len(lines) {
+		t := strings.TrimSpace(lines[i])
+		i++
+		if !strings.HasPrefix(t, "# @grog") {
+			continue
+		}
+		content := false
+		nAnno := 0
+		for i < len(lines) {
+			n := strings.TrimSpace(lines[i])
+			i++
+			if n == "" {
+				continue
+			}
+			if strings.HasPrefix(n, "#") {
+				nAnno++
+				if nAnno > 1 || len(n) > 1 {
+					content = true // joined annotation text is non-empty
+				}
+				continue
+			}
+			// the rule line
+			if content {
+				block++
+				if !yamlOK(block) {
+					return cmds, true
+				}
+			}
+			if !strings.Contains(n, ":") {
+				return cmds, true
+			}
+			cmds = append(cmds, "make "+strings.Split(n, ":")[0])
+			break
+		}
+	}
+	return cmds, false
+}
+
 // P1: any sequence of lines yields a package or an error from the Makefile parser - never a panic
 func VerifC16_P_makefile() {
 	yamlCalls = 0
@@ -66,6 +111,19 @@ func VerifC16_P_makefile() {
 	lines := symLines(n)
 	p := newMakefileParser(bufio.NewScanner(sym.LinesReader(lines)))
 	pkg, found, err := p.parse()
+	// differential: the same lines through the reference reading (the YAML model's verdict per block is
+	// read back from the choices the model made)
+	want, rejected := refMakefile(lines, func(k int) bool { return sym.Choice(fmt.Sprintf("yaml_fails_%d", k), 2) == 0 })
+	sym.Assert((err != nil) == rejected, "C16.P1.makefile-rejects-exactly-malformed-blocks")
+	if err == nil && !rejected {
+		same := len(want) == len(pkg.Targets)
+		for i := range pkg.Targets {
+			if same && !sym.StrEq(pkg.Targets[i].Command, want[i]) {
+				same = false
+			}
+		}
+		sym.Assert(same, "C16.P1.makefile-targets-are-exactly-the-annotated-rules")
+	}
 	if err != nil {
 		sym.Reach("C16.P.makefile.error")
 		return
